@@ -656,10 +656,12 @@ package bt
 //@   bytes token
 //@   ensures[C15.output_from_address] (and (=> (spec.addr_ok (b58dec addr)) (= err nil)) (=> (= err nil) (and (= (len (. tx Outputs)) (+ (old (len (. tx Outputs))) 1)) (not (nil? (at (. tx Outputs) (old (len (. tx Outputs)))))) (= (. (at (. tx Outputs) (old (len (. tx Outputs)))) Satoshis) satoshis) (= (bytes (. (at (. tx Outputs) (old (len (. tx Outputs)))) LockingScript)) (spec.p2pkh_script (bsub (b58dec addr) 1 21))))))
 //@   check[C15.output_from_address_only_valid] (=> (= err nil) (spec.addr_ok (b58dec addr)))
+//@   ensures[C15.output_from_address_shape] (=> (= err nil) (and (= (blen (b58dec addr)) 25) (or (= (bat (b58dec addr) 0) 0) (= (bat (b58dec addr) 0) 111))))
 //@ func bt.(*Tx).PayToAddress
 //@   bytes token
 //@   ensures[C15.pay_to_address] (and (=> (spec.addr_ok (b58dec addr)) (= err nil)) (=> (= err nil) (and (= (len (. tx Outputs)) (+ (old (len (. tx Outputs))) 1)) (not (nil? (at (. tx Outputs) (old (len (. tx Outputs)))))) (= (. (at (. tx Outputs) (old (len (. tx Outputs)))) Satoshis) satoshis) (= (bytes (. (at (. tx Outputs) (old (len (. tx Outputs)))) LockingScript)) (spec.p2pkh_script (bsub (b58dec addr) 1 21))))))
 //@   check[C15.pay_to_address_only_valid] (=> (= err nil) (spec.addr_ok (b58dec addr)))
+//@   ensures[C15.pay_to_address_shape] (=> (= err nil) (and (= (blen (b58dec addr)) 25) (or (= (bat (b58dec addr) 0) 0) (= (bat (b58dec addr) 0) 111))))
 
 // ---- C04 (partial): installing unlocking scripts ----
 // Assumption on user-supplied unlockers: an Unlocker writes no memory that existed before the call (it does not modify the
